@@ -537,6 +537,37 @@ fn run(prop: Prop, ctx: &Ctx, rep: &mut Report) {
         );
         rep.note("G3_corpus_messages", corp.len());
     }
+    // ---------------- G7: two adjacent option instances whose value lengths coincide modulo 2^8 / 2^16
+    {
+        let adds: [usize; 5] = [256, 512, 65280, 65536, 0];
+        let radices = [301u64, adds.len() as u64, 2, 3, 2];
+        let n = product(&radices);
+        ctx.family(
+            rep,
+            "G7-adjacent-lengths-equal-modulo-256-65536",
+            "well-formed datagrams with two (three) adjacent option instances of lengths l and l+{256,512,65280,65536,0} (l = 0..=300, both orders, second delta {0,1,13}, optionally followed by a third instance of length l)",
+            n,
+            true,
+            |i, rep| {
+                let d = decode(i, &radices);
+                let l = d[0] as usize;
+                let l2 = l + adds[d[1] as usize];
+                if l2 > codec::MAX_EXT {
+                    rep.count("skipped-length-not-encodable");
+                    return;
+                }
+                let (a, b) = if d[2] == 0 { (l, l2) } else { (l2, l) };
+                let second = 11 + [0u32, 1, 13][d[3] as usize];
+                let mut options = vec![(11u32, pattern(a, 0x21)), (second, pattern(b, 0x43))];
+                if d[4] == 1 {
+                    options.push((second, pattern(l, 0x65)));
+                }
+                let m = RefMsg { version: 1, mtype: 0, token: vec![7], code: 2, mid: 0x1234, options, payload: vec![] };
+                let bytes = codec::enc(&m).unwrap();
+                judge(prop, "G7-adjacent-lengths-equal-modulo-256-65536", i, n, &bytes, ctx, rep);
+            },
+        );
+    }
     rep.note("property", pname);
     rep.assume("refmodel::codec::parse (three-valued RFC 7252 section 3 parser written from the RFC text) is the trusted reference");
     if prop == Prop::C02 {
@@ -570,22 +601,26 @@ fn size_families(prop: Prop, ctx: &Ctx, rep: &mut Report) {
     }
     // ---------------- G6: very many options in one datagram
     {
-        let counts: [usize; 8] = [50, 500, 3000, 4000, 10_000, 20_000, 30_000, 60_000];
-        let n = counts.len() as u64 * 2;
+        let counts: [usize; 17] = [50, 500, 3000, 4000, 10_000, 20_000, 30_000, 60_000, 65_534, 65_535, 65_536, 65_537, 70_000, 131_071, 131_072, 131_073, 200_000];
+        let tails: [&[u8]; 6] = [&[], &[0xFF, 0x01, 0x02], &[0xF1, 0x00], &[0x1D], &[0x15, 0x01, 0x02], &[0x1F, 0x00]];
+        let n = counts.len() as u64 * 2 * tails.len() as u64;
         ctx.family(
             rep,
             "G6-very-many-options",
-            "well-formed datagrams with 50 .. 60000 one-byte options (all the same number / every option number + 1)",
+            "datagrams with 50 .. 200000 one-byte options (all the same number / every option number + 1, which passes 65535 for the larger counts) followed by {nothing, a payload, delta nibble 15, a truncated extended delta, a truncated value, length nibble 15}",
             n,
             true,
             |i, rep| {
-                let k = counts[(i / 2) as usize];
-                let step: u8 = if i % 2 == 0 { 0x01 } else { 0x11 }; // delta 0 or 1, length 1
+                let t = tails[(i % tails.len() as u64) as usize];
+                let i2 = i / tails.len() as u64;
+                let k = counts[(i2 / 2) as usize];
+                let step: u8 = if i2 % 2 == 0 { 0x01 } else { 0x11 }; // delta 0 or 1, length 1
                 let mut b = vec![0x40u8, 0x01, 0x77, 0x88];
                 for j in 0..k {
                     b.push(if j == 0 { 0xB1 } else { step });
                     b.push(b'a' + (j % 26) as u8);
                 }
+                b.extend_from_slice(t);
                 judge(prop, "G6-very-many-options", i, n, &b, ctx, rep);
             },
         );
